@@ -102,44 +102,22 @@ def md_hash(alg,Mb,bitlen=None,h0=None,count0=0,raw=False):
     if raw: return h
     out=b''.join(x.to_bytes(w//8,'little' if le else 'big') for x in h)
     return out[:{'sha224':28,'sha384':48,'sha512_224':28,'sha512_256':32}.get(alg,len(out))]
-if __name__=='__main__':
-    for n in list(range(0,300)):
-        m=bytes((i*7+n)&255 for i in range(n))
+def selftest():
+    """bind the reference to hashlib and to published vectors; raises on mismatch"""
+    n=0
+    for ln in range(0,300):
+        m=bytes((i*7+ln)&255 for i in range(ln))
         for a in ('md5','sha1','sha224','sha256','sha384','sha512','sha512_224','sha512_256'):
-            assert md_hash(a,m)==hashlib.new(a,m).digest(),(a,n)
-    assert md_hash('md4',b'abc').hex()=='a448017aaf21d8525fc10ae87aa6729d'
-    assert md_hash('md4',b'12345678901234567890123456789012345678901234567890123456789012345678901234567890').hex()=='e33b4ddc9c38f2199c3e7b164fcc0536'
-    assert md_hash('sha0',b'abc').hex()=='0164b8a914cd2a5e74c4f7ff082c4d97f1edf880'
-    print('md/sha refs ok')
-    # NIST bit-oriented SHA-1: Len=1 Msg=00 -> bb6b3e18f0115b57925241676f5b1ae88747b08a ; Len=2 Msg=40 -> ec6b39952e1a3ec3ab3507185cf756181c84bbe2
-    print(md_hash('sha1',b'\x00',1).hex(),'(NIST SHAVS bit Len=1: bb6b3e18f0115b57925241676f5b1ae88747b08a)')
-    import collections
-    from crysp.sha import SHA1,SHA2; from crysp.md import MD4,MD5
-    fails=collections.Counter(); n=0
-    mk={'md4':MD4,'md5':MD5,'sha0':lambda:SHA1(0),'sha1':SHA1,'sha224':lambda:SHA2(224),'sha256':lambda:SHA2(256),'sha384':lambda:SHA2(384),'sha512':lambda:SHA2(512),'sha512_224':lambda:SHA2(512,224),'sha512_256':lambda:SHA2(512,256)}
-    for a,f in mk.items():
-        B=1024 if a in('sha384','sha512','sha512_224','sha512_256') else 512; cs=B//8
-        Ls=set()
-        for c in (0,B-cs-1,B,2*B-cs-1,2*B):
-            for d in range(-9,10):
-                if c+d>0: Ls.add(c+d)
-        for L in sorted(Ls):
-            m=bytes((i*13+L)&255 for i in range((L+7)//8)); n+=1
-            try: got=f()(m,bitlen=L)
-            except Exception as e: got='EXC '+type(e).__name__
-            if got!=md_hash(a,m,L): fails[(a,'bitlen',got if isinstance(got,str) else 'WRONG')]+=1
-            if L%8==5:
-                n+=1
-                if f()(m+b'\xaa'*(B//8+1),bitlen=L)!=md_hash(a,m,L): fails[(a,'container')]+=1
-        # preset counters
-        for c0 in ((1<<32)-B,(1<<33),(1<<64)-B):
-            for ln in (0,1,B//8-cs//8-1,B//8-cs//8,B//8,B//8+1):
-                o=f(); o.initstate(); h0=[(x.ival*3+1)&x.mask for x in o.H]
-                for x,v in zip(o.H,h0): x.ival=v
-                o.padmethod.bitcnt=c0; m=bytes((i*3+1)&255 for i in range(ln)); n+=1
-                try: got=o.update(m,padding=True)
-                except Exception as e: got='EXC '+type(e).__name__
-                exp=md_hash(a,m,None,h0=h0,count0=c0)
-                if got!=exp: fails[(a,'preset c0=2^%d'%round(math.log2(c0+B)),got if isinstance(got,str) else 'WRONG')]+=1
-    print(n,'cases');
-    for k,v in sorted(fails.items()): print(v,k)
+            if md_hash(a,m)!=hashlib.new(a,m).digest(): raise AssertionError(('mdsha ref vs hashlib',a,ln))
+            n+=1
+    kat=[('md4',b'','31d6cfe0d16ae931b73c59d7e0c089c0'),('md4',b'abc','a448017aaf21d8525fc10ae87aa6729d'),
+         ('md4',b'message digest','d9130a8164549fe818874806e1c7014b'),
+         ('md4',b'12345678901234567890123456789012345678901234567890123456789012345678901234567890','e33b4ddc9c38f2199c3e7b164fcc0536'),
+         ('sha0',b'abc','0164b8a914cd2a5e74c4f7ff082c4d97f1edf880')]
+    for a,m,d in kat:
+        if md_hash(a,m).hex()!=d: raise AssertionError(('mdsha ref KAT',a,m))
+        n+=1
+    # NIST SHAVS bit-oriented SHA-1 vectors (Len=1 Msg=00, Len=2 Msg=40)
+    if md_hash('sha1',b'\x00',1).hex()!='bb6b3e18f0115b57925241676f5b1ae88747b08a': raise AssertionError('sha1 bit vector 1')
+    if md_hash('sha1',b'\x40',2).hex()!='ec6b39952e1a3ec3ab3507185cf756181c84bbe2': raise AssertionError('sha1 bit vector 2')
+    return n+2
